@@ -2164,6 +2164,15 @@ class sptensor:
             for dim, value in enumerate(item):
                 if isinstance(value, (int, np.integer)) and value < 0:
                     value = self.shape[dim] + value  # noqa: PLW2901
+                elif (
+                    isinstance(value, (list, tuple, np.ndarray))
+                    and len(value) > 0
+                    and np.min(value) < 0
+                ):
+                    # Entries of an index list count from the end as well
+                    value = [  # noqa: PLW2901
+                        int(v + self.shape[dim]) if v < 0 else int(v) for v in value
+                    ]
                 region.append(value)
 
             # Pare down the list of subscripts (and values) to only
